@@ -106,9 +106,9 @@ def inorder_sub(node):
     return out
 
 
-def step_event(t0, name, opt, rule, k, text=""):
+def step_event(t0, name, opt, rule, k, text="", own_tree=False):
     objs = project.ObjTable()
-    src = t0.clone()
+    src = t0 if own_tree else t0.clone()      # own_tree: the caller's very tree (with whatever bookkeeping earlier calls left on its nodes)
     nd = inorder(src)[k]
     # the realistic flow: ask on the tree, clone the node from the root, apply on the clone
     try:
@@ -119,8 +119,9 @@ def step_event(t0, name, opt, rule, k, text=""):
     project.absorb(objs, [src])
     work = nd.clone_from_root()
     wroot = work.get_root()
+    kw = next((i for i, n in enumerate(inorder(wroot)) if n is work), -1)
     hb = project.snapshot(objs, [src, wroot])
-    ev = {"typ": "step", "rule": name, "opt": opt, "text": text, "k": k, "hb": slim(hb), "src": objs.of(src), "work": objs.of(wroot),
+    ev = {"typ": "step", "rule": name, "opt": opt, "text": text, "k": k, "kw": kw, "hb": slim(hb), "src": objs.of(src), "work": objs.of(wroot),
           "node": objs.of(work), "res": 0, "printed": "", "reparse": "-", "re": {"k": "c", "n": 0, "d": 1}}
     result_root = None
     try:
@@ -272,6 +273,7 @@ def _events_for_text(job):
     One set of rule objects is used for the whole text, as a search agent would."""
     text, want_probe = job[0], job[1]
     second = len(job) > 2 and job[2]
+    inplace2 = len(job) > 3 and job[3]
     try:
         t0 = parse(text)
     except BaseException:  # noqa
@@ -289,7 +291,7 @@ def _events_for_text(job):
                 continue
             out.append(ev)
             if result_root is not None and ev["outcome"] == "ok":
-                firsts.append((name, k, result_root, ev["printed"]))
+                firsts.append((name, k, result_root, ev["printed"], opt))
             if want_probe and result_root is not None and ev["outcome"] == "ok":
                 try:
                     out.extend(reprobe_event(result_root, persistent, text, "%s@%d" % (name, k)))
@@ -357,7 +359,7 @@ def _events_for_text(job):
     if second and firsts:
         # a second step from some of the results, with the SAME rule objects (a two-step derivation)
         step = max(1, len(firsts) // 3)
-        for name1, k1, root1, printed1 in (firsts[::step][:3] if second is True else firsts[:int(second)]):
+        for name1, k1, root1, printed1, _ in (firsts[::step][:3] if second is True else firsts[:int(second)]):
             m = len(inorder(root1))
             if m > 40:
                 continue
@@ -370,6 +372,29 @@ def _events_for_text(job):
                     ev, _ = step_event(root1, name, opt, rule, k, "%s  =[%s@%d]=>  %s" % (text, name1, k1, printed1))
                     if ev is not None:
                         ev["second"] = [text, name1, k1]
+                        out.append(ev)
+    if inplace2 and firsts:
+        # a caller that keeps ONE tree: find_nodes() of every rule on it, a first step applied in place, then every rule at every node
+        # of that very tree (clone_from_root of nodes that still carry the earlier bookkeeping)
+        stepi = max(1, len(firsts) // int(inplace2))
+        for name1, k1, _, _, opt1 in firsts[::stepi][:int(inplace2)]:
+            try:
+                tree = t0.clone()
+                for _, _, r in persistent:
+                    r.find_nodes(tree)
+                rule1 = [r for n_, o_, r in persistent if (n_, o_) == (name1, opt1)][0]
+                root1 = rule1.apply_to(inorder(tree)[k1]).result.get_root()
+                printed1 = str(root1)
+            except BaseException:  # noqa
+                continue
+            m = len(inorder(root1))
+            if m > 40:
+                continue
+            for name, opt, rule in persistent:
+                for k in range(m):
+                    ev, _ = step_event(root1, name, opt, rule, k, "%s  =[in place %s@%d]=>  %s" % (text, name1, k1, printed1), own_tree=True)
+                    if ev is not None:
+                        ev["second"] = [text, name1, k1, "inplace"]
                         out.append(ev)
     return out
 
